@@ -222,10 +222,11 @@ Proof.
   - (* 13 *) destruct (nth_error (conss (hs h)) (n2n n)) as [x|] eqn:Ex; [|discriminate]. destruct (ck x) eqn:Ek; try discriminate.
     destruct (cpcv x) eqn:Ep; try discriminate.
     destruct (N.eqb n0 0 || N.eqb n0 1 || N.eqb n0 10 || N.eqb n0 11)%N eqn:Er; [|discriminate].
-    intros H. inversion H. eexists _, _. split; [|reflexivity]. eapply D_cbret; eauto.
-    apply orb_true_iff in Er. destruct Er as [Er|Er]; [|apply N.eqb_eq in Er; auto].
-    apply orb_true_iff in Er. destruct Er as [Er|Er]; [|apply N.eqb_eq in Er; auto].
-    apply orb_true_iff in Er. destruct Er as [Er|Er]; apply N.eqb_eq in Er; auto.
+    assert (Hres : (n0 = 0 \/ n0 = 1 \/ n0 = 10 \/ n0 = 11)%N).
+    { apply orb_true_iff in Er. destruct Er as [Er|Er]; [|apply N.eqb_eq in Er; auto].
+      apply orb_true_iff in Er. destruct Er as [Er|Er]; [|apply N.eqb_eq in Er; auto].
+      apply orb_true_iff in Er. destruct Er as [Er|Er]; apply N.eqb_eq in Er; auto. }
+    intros H. inversion H. eexists _, _. split; [eapply D_cbret; eauto | reflexivity].
   - (* 8, four fields *) intros H. destruct (R8 _ _ _ _ H) as [x [A1 [A2 [A3 A4]]]]. eexists _, _. split; [eapply D_ret4; eauto | exact A4].
   - (* 8, five fields *) intros H. destruct (R8 _ _ _ _ H) as [x [A1 [A2 [A3 A4]]]]. eexists _, _. split; [eapply D_ret5; eauto | exact A4].
 Qed.
